@@ -114,7 +114,13 @@ func fromWire(t interface{ Fatalf(string, ...any) }, s spec) cluster.VersionVect
 	}
 	v, err := cluster.ReadVersionVector(messages.NewReader(w.Bytes()))
 	if err != nil {
-		t.Fatalf("harness: ReadVersionVector(%v): %v", s, err)
+		// every counter the generator draws is one Increment can produce (<= the maximum): a reader that rejects
+		// such a vector breaks "a vector survives serialisation"
+		sig, detail := "C16/serialisation|legal-vector-rejected", fmt.Sprintf("ReadVersionVector rejects the encoding of %v (every counter <= the maximum counter): %v", s, err)
+		if !vstat.Fail(sig, detail, nil) {
+			t.Fatalf("VERIF-FAIL sig=%s :: %s", sig, detail)
+		}
+		t.Fatalf("known finding: %s", sig)
 	}
 	return v
 }
